@@ -1192,7 +1192,7 @@ def wrap_width_lemmas():
 
 
 def extra_checks(tier, seed):
-    return {'lemmas': [cipher_block_sizes_lemma()] + wrap_width_lemmas(),
+    return {'lemmas': [cipher_block_sizes_lemma()] + wrap_width_lemmas() + rfc1423_round_trip_lemma(),
             'bounded': [bounded_armour(tier), bounded_mpint(tier), bounded_text_round_trip(tier)] + bounded_der(tier)}
 
 
@@ -2689,6 +2689,139 @@ dec_mpint = Spec(
                  c.new('_idx') == z3.Length(c.new('_packet')) - z3.Length(G(c, 'rest')),
                  c.new('_packet') == c.old('_packet')))],
     raises={}, returns='int')
+
+
+# ====================================================================== pbe._RFC1423Pad (RFC 1423 1.1 / PKCS#5 6.1.1)
+# "pad the input at the trailing end with k - (l mod k) octets all having value k - (l mod k)": always 1..k octets,
+# a full block when the input is block aligned; decryption removes exactly such a tail and rejects anything else.
+rep = z3.Function('bytes_repeat', BytesS, IntS, BytesS)        # the engine's model of  bytes * int
+
+
+def _padding(n):
+    return rep(z3.Unit(n), n)
+
+
+PAD_CLASSES = {'_RFC1423Pad': {'_block_size': 'int', '_cipher': 'obj:BlockCipher'}, 'BlockCipher': {}}
+PAD_CASES = [(f'block{b}', {'_block_size': b}) for b in (8, 16)]      # block ciphers of the cipher table (data lemma)
+
+
+def pad_encrypt_post(c):
+    enc = c.calls('self._cipher.encrypt')
+    if len(enc) != 1:
+        return z3.BoolVal(False)
+    plain, data, bs = enc[0]['args'][0].z, c.arg('data'), c.old('_block_size')
+    n = z3.Length(plain) - z3.Length(data)
+    return z3.And(n >= 1, n <= bs, z3.Length(plain) % bs == 0, plain == z3.Concat(data, _padding(n)),
+                  c.result == enc[0]['ret'].z)
+
+
+rfc1423_encrypt = Spec(
+    'C15', 'pbe', '_RFC1423Pad.encrypt', self_class='_RFC1423Pad', params={'data': 'bytes'}, classes=PAD_CLASSES,
+    stubs={'self._cipher.encrypt': ret('bytes', 'ciphertext')}, cases=PAD_CASES,
+    ensures=[('pads-with-1-to-k-octets-of-value-n', pad_encrypt_post)], raises={}, returns='bytes')
+
+
+def _pad_valid(p, bs):
+    """p ends in a well-formed padding string: n = last octet, 1 <= n <= k, the last n octets all equal n"""
+    ln = z3.Length(p)
+    n = p[ln - 1]
+    return z3.And(ln > 0, n >= 1, n <= bs, n <= ln, z3.Extract(p, ln - n, n) == _padding(n))
+
+
+def pad_decrypt_post(c):
+    dec = c.calls('self._cipher.decrypt')
+    if len(dec) != 1:
+        return z3.BoolVal(False)
+    p, bs = dec[0]['ret'].z, c.old('_block_size')
+    n = p[z3.Length(p) - 1]
+    return z3.And(c.eq(dec[0]['args'][0], c.argv('data')), _pad_valid(p, bs), p == z3.Concat(c.result, _padding(n)))
+
+
+rfc1423_decrypt = Spec(
+    'C15', 'pbe', '_RFC1423Pad.decrypt', self_class='_RFC1423Pad', params={'data': 'bytes'}, classes=PAD_CLASSES,
+    stubs={'self._cipher.decrypt': ret('bytes', 'plaintext')}, cases=PAD_CASES,
+    ensures=[('removes-exactly-a-wellformed-padding', pad_decrypt_post)],
+    raises={'KeyEncryptionError': lambda c: z3.Not(_pad_valid(c.calls('self._cipher.decrypt')[0]['ret'].z,
+                                                              c.old('_block_size')))},
+    returns='bytes')
+
+
+def rfc1423_round_trip_lemma():
+    """over the two contracts (pure logic): if the cipher's decrypt inverts its encrypt, then what decrypt sees is
+    x ++ padding(n) with 1 <= n <= k; the decrypt contract then cannot reject it and must return x.
+    Definitional facts of  bytes * int  used: len(b'c' * n) == n and every octet is c."""
+    import time
+    x, r = z3.Consts('x r', BytesS)
+    n, k = z3.Ints('n k')
+    p = z3.Concat(x, _padding(n))
+    j = z3.Int('j')
+    defs = [z3.Length(_padding(n)) == n, z3.ForAll([j], z3.Implies(z3.And(j >= 0, j < n), _padding(n)[j] == n))]
+    m = p[z3.Length(p) - 1]
+    last = _padding(n)[n - 1] == n                      # ground instance of the element definition (j = n - 1)
+    base = [z3.Length(_padding(n)) == n, n >= 1, n <= k, z3.Or(k == 8, k == 16)]
+    steps = [('decrypt-never-rejects-what-encrypt-padded', defs + base, _pad_valid(p, k)),
+             # the padding length decrypt reads (last octet) is the one encrypt wrote ...
+             ('decrypt-reads-the-padding-length-encrypt-wrote', base + [last], m == n),
+             # ... so removing that many octets (the decrypt contract: p == r ++ padding(m)) leaves the original
+             ('decrypt-returns-the-original', base + [m == n, p == z3.Concat(r, _padding(m))], r == x)]
+    out = []
+    for name, hyp, goal in steps:
+        res, t0 = z3.unknown, time.time()
+        for seed in (0, 7, 23):
+            s = z3.Solver()
+            s.set('timeout', 30000)
+            s.set('random_seed', seed)
+            s.add(*hyp)
+            s.add(z3.Not(goal))
+            res = s.check()
+            if res != z3.unknown:
+                break
+        out.append({'name': f'C15.pbe._RFC1423Pad#lemma(round-trip:{name})',
+                    'verdict': 'proved' if res == z3.unsat else ('refuted' if res == z3.sat else 'unknown'), 'backend': 'z3',
+                    'reason': str(res), 'solver_s': round(time.time() - t0, 2), 'replayed': False})
+    return out
+
+
+# ====================================================================== crypto.ec._ECKey.private_value (SEC1 / RFC 5915)
+# RFC 5915 3: "privateKey is the private key ... an octet string of length ceiling (log2(n)/8) (where n is the order
+# of the curve)" - i.e. fixed width, leading zero octets included, for every scalar 1 <= d < n.
+def ec_private_value_setup(bits):
+    def setup(ex, st):
+        me = st.env['self']
+        pub = ex.get_field(st, me, '_pub')
+        curve = ex.get_field(st, pub, 'curve')
+        st.set_field(curve, 'key_size', VInt(bits))
+        st.heap['__c15__'] = {'bits': bits}
+        st.heap['__cut__'] = True        # a property on PyCA-backed objects: not scripted natively
+    return setup
+
+
+def _ec_d(c):
+    return c.oldv('private_value', c.oldv('_priv').val).z
+
+
+def ec_private_value_post(c):
+    bits = G(c, 'bits')
+    n = (bits + 7) // 8
+    has = z3.Not(c.oldv('_priv').isnone)
+    r = c.result_v
+    if r is VNone:
+        return z3.Not(has)
+    return z3.And(has, z3.Length(r.z) == n, r.z == be(z3.IntVal(n), _ec_d(c)))
+
+
+def _ec_private_value_spec(bits):
+    return VSpec(
+        f'{bits}-bit-curve', 'C15', 'crypto.ec', '_ECKey.private_value', self_class='_ECKey',
+        classes={'_ECKey': {'_priv': 'opt[obj:PyCAPriv]', '_pub': 'obj:PyCAPub'}, 'PyCAPriv': {'private_value': 'int'},
+                 'PyCAPub': {'curve': 'obj:Curve'}, 'Curve': {'key_size': 'int'}},
+        setup=ec_private_value_setup(bits),
+        # every valid scalar: 1 <= d < n < 2**bits
+        requires=lambda c: z3.Or(c.oldv('_priv').isnone, z3.And(_ec_d(c) >= 1, _ec_d(c) < 2 ** bits)),
+        ensures=[('fixed-width-ceil-bits-over-8-octets', ec_private_value_post)], raises={}, returns='opt[bytes]')
+
+
+ec_private_value_specs = [_ec_private_value_spec(b) for b in (256, 384, 521)]      # curves registered in crypto/ec.py
 
 
 # structured-input contracts: bounded work (normal runs need < 120 solver checks each)
